@@ -63,3 +63,34 @@ contract(
     raises=[(ByteSizeError, "(strides.depth % 16 != 0 or strides.height % 16 != 0) if fm.layout == NpuLayout.NHCWB16 else"
                             " (strides.height % fm.data_type.size_in_bytes() != 0 or strides.width % fm.data_type.size_in_bytes() != 0)")],
 )
+
+
+# ===== overlap tests (C04) ==============================================================================================
+RANGE = TTuple(TInt(lo=0, hi=8), TInt(lo=0, hi=2**40 - 1), TInt(lo=0, hi=2**40), cls=NpuAddressRange)
+
+
+def bytes_overlap(r1, r2):
+    """two address ranges share at least one byte (same region, non-empty intersection)"""
+    return r1.region == r2.region and max(r1.address, r2.address) < min(r1.address + r1.length, r2.address + r2.length)
+
+
+contract(
+    "ethosu.vela.register_command_stream_util:ranges_overlap", props=["C04"],
+    types=dict(range1=RANGE, range2=RANGE),
+    ensures=["implies(range1.length > 0 and range2.length > 0, result == bytes_overlap(range1, range2))",
+             "implies(result, range1.region == range2.region)"],
+    returns=PyBool,
+)
+
+contract(
+    "ethosu.vela.register_command_stream_util:range_lists_overlap", props=["C04"],
+    types=dict(list1=TList(TOpt(RANGE)), list2=TList(TOpt(RANGE))),
+    requires=["all(r is None or r.length > 0 for r in list1)", "all(r is None or r.length > 0 for r in list2)"],
+    loops={
+        0: dict(invariants=["all(list1[i] is None or all(list2[j] is None or not bytes_overlap(list1[i], list2[j]) for j in range(len(list2))) for i in range(_it0))"]),
+        1: dict(invariants=["all(list2[j] is None or not bytes_overlap(range1, list2[j]) for j in range(_it1))"]),
+    },
+    # exact: True iff some used range of list1 shares a byte with some used range of list2 (unused tiles are None and skipped)
+    ensures=["result == any(list1[i] is not None and any(list2[j] is not None and bytes_overlap(list1[i], list2[j]) for j in range(len(list2))) for i in range(len(list1)))"],
+    returns=PyBool,
+)
